@@ -5,19 +5,30 @@ here decide the same behaviour from facts computed on the current code, whatever
 evaluation of an extracted fragment on one representative per class of its finite input partition; nothing of the
 library is imported or run - the statements are read from the ast and interpreted by sa/blockeval + sa/consteval with
 rule-supplied stubs for atoms, residues, the Enum of atom types, the KD-tree (modelled as 'every pair within the radius,
-once'), numpy's norm, argparse, open, csv and print):
+once'; ball queries as 'every index within the radius'), numpy's norm / arrays of points, argparse (every declared
+argument becomes an attribute; a boolean switch holds a token naming its command-line spelling), open, csv (writer and
+DictWriter), print / sys.stdout, pathlib, and the pure stdlib helpers operator / itertools / functools / heapq /
+collections; record classes of the module - NamedTuple, namedtuple, dataclass - and plain classes are instantiated as
+records whose methods are evaluated the same way; generator helpers are evaluated eagerly):
 
   find_clashes   one synthetic structure made of well separated two-atom clusters - one cluster per class of
                  (type pair x distance cell) and of (same/different residue x nucleotide flags x equal/different names x
-                 occupancy class x distance cell) - evaluated for all 32 option combinations and compared with the
+                 occupancy class incl. 0.0, missing and a sum of 0.99 x distance cell), two *different* residues that
+                 share chain+number / number / chain+number+insertion code, atoms of no known type (H, M, and hydrogens
+                 named HO.. / HN.. / HC.. / HP..) - evaluated for all 32 option combinations and compared with the
                  pairwise van-der-Waals definition; every atomic condition met during the evaluation must be a function
-                 of one feature of the definition (closed world: nothing else may skip a pair)
+                 of one feature of the definition (closed world: nothing else may skip a pair); the pair a condition is
+                 about is read from the index items of the KD-tree model on the loop stack, the atom handed to a helper
+                 from its call frame
   main           the whole function evaluated on a representative clash list (file order of the residues both equal and
-                 opposite to their sort order, several records per group, maxima not at the end) with tokens standing
-                 for chains, residues and atom names: listed atom lines / CSV rows = the clashes, every atom attributed
-                 to its own residue (key and record of a filed clash agree on orientation), printed maxima = maxima of
-                 the lines listed below the heading, report and CSV in the same order, nothing depends on the iteration
-                 order of a set
+                 opposite to their sort order; three records per residue pair and five residue pairs per chain pair with
+                 the largest sum in the middle of file order and of sort order; residue pairs that differ only in chain,
+                 insertion code or residue name) with tokens standing for chains, residues and atom names: listed atom
+                 lines / CSV rows = the clashes, every atom attributed to its own residue (key and record of a filed
+                 clash agree on orientation), printed maxima = maxima of the lines listed below the heading (the message
+                 names the print statement and the expression whose value is printed), report and CSV in the same order,
+                 nothing depends on the iteration order of a set; the evaluated call of find_clashes binds every option
+                 parameter to the switch of the same name (positional or keyword); read_metadata receives an open file
 """
 from __future__ import annotations
 
@@ -185,12 +196,18 @@ def _isidx(x) -> bool:
 class KDTreeModel(Stub):
     """scipy.spatial.KDTree as trusted: query_pairs(r) = every pair i < j of points at distance <= r, exactly once."""
 
-    def __init__(self, log: List[float]):
+    def __init__(self, log: List[float], calls: Optional[List[Any]] = None):
         self.log = log
+        self.calls: List[Any] = calls if calls is not None else []  # the statements that asked for neighbours
         self.built: List["KDTreeModel"] = []
 
+    def _asked(self):
+        cur = Ev.current
+        if cur is not None and cur[1] is not None and not any(cur[1] is c for c in self.calls):
+            self.calls.append(cur[1])
+
     def __call__(self, points, *a, **k):
-        t = KDTreeModel(self.log)
+        t = KDTreeModel(self.log, self.calls)
         t.points = [_as_vec(p) for p in points]
         self.built.append(t)
         return t
@@ -199,6 +216,7 @@ class KDTreeModel(Stub):
         if not isinstance(r, (int, float)) or isinstance(r, bool):
             raise NotConst("KD-tree radius is not a number")
         self.log.append(float(r))
+        self._asked()
         pts = self.points
         order = sorted(range(len(pts)), key=lambda i: pts[i].xs[0])
         out = []
@@ -222,6 +240,7 @@ class KDTreeModel(Stub):
         if not isinstance(r, (int, float)) or isinstance(r, bool):
             raise NotConst("KD-tree radius is not a number")
         self.log.append(float(r))
+        self._asked()
         if isinstance(x, Vec) or (isinstance(x, (list, tuple)) and len(x) == 3 and all(isinstance(c, (int, float)) for c in x)):
             return self._near(x, r)
         return [self._near(p, r) for p in x]
@@ -230,6 +249,7 @@ class KDTreeModel(Stub):
         if not isinstance(other, KDTreeModel) or not isinstance(r, (int, float)) or isinstance(r, bool):
             raise NotConst("KD-tree ball query")
         self.log.append(float(r))
+        self._asked()
         return [other._near(p, r) for p in self.points]
 
 
@@ -1227,7 +1247,8 @@ def build_structure(radii: Dict[str, float], extra: float) -> List[Cluster]:
         for same_name in (True, False):
             cl.append(Cluster(len(cl), t, t, dd[0][0], dd[0][1], False, True, True, same_name, "half+half", "F", twin))
     # atoms of no known type right next to typed ones
-    for ta, tb in (("H", t), (t, "M"), ("H", "H")):
+    # (hydrogens whose names contain the letter of a typed element - HO5', HN1, ... - are of no known type either)
+    for ta, tb in (("H", t), (t, "M"), ("H", "H"), ("HO", t), (t, "HN"), ("HC", "HP")):
         cl.append(Cluster(len(cl), ta, tb, 0.2, "0.2 A", False, True, True, False, "half+half", "U"))
     return cl
 
@@ -1276,6 +1297,7 @@ class ClashEval:
         self.clusters = build_structure(radii, extra)
         self.trace: Dict[int, Any] = {}
         self.points: Dict[Any, List[Any]] = {}  # run tag -> atoms of the KD-tree points, in index order
+        self.query_stmts: List[Any] = []  # statements that query the KD-tree
         self.radius: Dict[Tuple, List[float]] = {}
         self.listed: Dict[Tuple, Dict[int, Any]] = {}  # option tuple -> cluster idx -> record
         self.problems: List[Tuple[str, str, Any]] = []  # (rule, message, cluster idx or None)
@@ -1323,6 +1345,9 @@ class ClashEval:
         finally:
             if kd.built:
                 self.points[tag] = [p.atom for p in kd.built[-1].points]
+            for c in kd.calls:
+                if not any(c is x for x in self.query_stmts):
+                    self.query_stmts.append(c)
         if kind != "return":
             raise Unknown("find_clashes does not return a value")
         return val, log
@@ -1539,7 +1564,13 @@ def check_find_clashes(chk, fi, radii: Dict[str, float], extra: float) -> Option
     if unread:
         chk.ok("search-radius", site, "the evaluation did not meet one KD-tree radius per call (no query, or a radius per queried point): that no accepted pair is outside the search is decided by rule `distance-threshold` on all 16 type pairs just below both thresholds")
     else:
-        chk.expect(worst is None, "search-radius", site, "the KD-tree radius (as evaluated for all 32 option combinations) is at least r_a + r_b + extra for every pair of atom types", f"the KD-tree radius ({worst[3]:.2f} A) is smaller than the acceptance threshold of {worst[1]}-{worst[2]} ({worst[4]:.2f} A, molprobity={worst[0]}): such clashes are never examined" if worst else "", _K(fi, "search-radius"), found=list(worst) if worst else None)
+        qsite, qtext = site, ""
+        if ce.query_stmts:
+            qs = ce.query_stmts[0]
+            qsite = fi.site(qs)
+            qcall = next((n for n in ast.walk(qs) if isinstance(n, ast.Call) and isinstance(n.func, ast.Attribute) and n.func.attr.startswith("query")), None)
+            qtext = f" of `{norm(qcall)[:80]}`" if qcall is not None else ""
+        chk.expect(worst is None, "search-radius", qsite, "the KD-tree radius (as evaluated for all 32 option combinations) is at least r_a + r_b + extra for every pair of atom types", f"the KD-tree radius{qtext} ({worst[3]:.2f} A) is smaller than the acceptance threshold of {worst[1]}-{worst[2]} ({worst[4]:.2f} A, molprobity={worst[0]}): such clashes are never examined" if worst else "", _K(fi, "search-radius"), found=list(worst) if worst else None)
     # record shape, roles, sums
     by_rule: Dict[str, List[str]] = {}
     for rule, msg, _ in ce.problems:
@@ -1563,7 +1594,7 @@ def check_find_clashes(chk, fi, radii: Dict[str, float], extra: float) -> Option
     slices.append(("option-filter", "option:ignore_autoclashes", "ignore_autoclashes skips exactly the pairs within one residue (two residues that share chain, number or insertion code are still two residues)", lambda op, c: c.group == "F" and c.occ == "half+half" and c.nuc_a and c.nuc_b and o(op, nucleic_acid_only=False, require_same_atom_name=False, ignore_occupancy=True, enable_molprobity_mode=False)))
     slices.append(("option-filter", "option:require_same_atom_name", "require_same_atom_name skips exactly the pairs with different atom names", lambda op, c: c.group == "F" and c.occ == "half+half" and c.nuc_a and c.nuc_b and o(op, nucleic_acid_only=False, ignore_autoclashes=False, ignore_occupancy=True, enable_molprobity_mode=False)))
     slices.append(("occupancy-rule", "occupancy-rule", f"a close pair is listed iff occupancies are ignored or their sum is 1 ({len(OCC)} occupancy classes incl. 0.0, missing values and 0.5 + 0.49)", lambda op, c: c.group == "F" and not c.same_res and c.nuc_a and c.nuc_b and not c.same_name and o(op, nucleic_acid_only=False, ignore_autoclashes=False, require_same_atom_name=False, enable_molprobity_mode=False)))
-    slices.append(("collection", "collection", "atoms considered = C/N/O/P atoms of all residues, or of nucleotides only when nucleic_acid_only is set (6 residue configurations, atoms of other types next to typed ones)", lambda op, c: (c.group == "U" or (c.group == "F" and c.occ == "half+half" and not c.same_name)) and o(op, ignore_autoclashes=False, require_same_atom_name=False, ignore_occupancy=True, enable_molprobity_mode=False)))
+    slices.append(("collection", "collection", "atoms considered = atoms whose name starts with C/N/O/P, of all residues or of nucleotides only when nucleic_acid_only is set (6 residue configurations; atoms of other types - H, M, and hydrogens named HO/HN/HC/HP - next to typed ones)", lambda op, c: (c.group == "U" or (c.group == "F" and c.occ == "half+half" and not c.same_name)) and o(op, ignore_autoclashes=False, require_same_atom_name=False, ignore_occupancy=True, enable_molprobity_mode=False)))
     any_slice = False
     for rule, key, okmsg, pred in slices:
         mine = [d for d in dev if pred(d[0], d[1])]
